@@ -3,8 +3,10 @@
 
     [FaSane] / [FqSane] (Proofs/SaneP.v, Proofs/FqSaneP.v) are simple predicates on reader
     states about the offsets the code slices with:
-      FASTA: [start <= search_pos <= |buffer|], every recorded line end is at or after
-             [start]; before the first record all offsets are 0;
+      FASTA: unless the reader is [Finished] (then nothing is required: it answers every
+             read with end of input, [seek] re-establishes the offsets, and after a failed
+             refill its buffer has been dropped): [start <= search_pos <= |buffer|], every
+             recorded line end is at or after [start]; before the first record all offsets are 0;
       FASTQ: depending on the state flag and on how far the search for the current record
              got ([inc]), the offsets found so far are strictly ordered and inside the buffer
              ([p0 < seq < sep < qual <= p1], [p1 + 1 <= |buffer|] for a complete record).
